@@ -33,23 +33,32 @@ RULE = ("a case is a history of New(n)/Del/Disp/Swap/Meas/segment-boundary opera
         "deleted / unknown / repeated modes) run on one engine or one backend object; non-trivial = contains a deletion "
         "or a second program segment")
 TRUSTED_BASE = [
-    "Coq 8.16.1 kernel; vm_compute for evaluating the model on generated histories",
-    "hand-written model coq/C08/Model.v (Program register accounting, ModeMap/_remap_modes/alloc/dealloc axis bookkeeping, "
-    "Gaussian and bosonic `active` lists, slot selection of state()), tied to /repo by exact correspondence on generated histories",
-    "abstraction of simulator content to one integer per mode (coherent displacement in units of 0.05); the per-mode "
-    "fingerprint <x>/0.1 is decoded with tolerance 0.2 units",
-    "harness tools/props/c08.py (drivers, generators, Python copy of the specification used as search oracle; the copy is "
-    "compared with the Coq specification run_spec on every generated history)",
-    "bosonic engine path (BosonicBackend.run_prog/init_circuit) is not modelled in Coq: it is covered by the search only",
+    "Coq 8.16.1 kernel; vm_compute for evaluating the model on generated histories and for the _refuted witnesses",
+    "hand-written model coq/C08/Model.v (Program register accounting incl. can_follow, ModeMap/_remap_modes/alloc/dealloc axis "
+    "bookkeeping, Gaussian and bosonic `active` lists with their guards, slot selection of the three state() methods), tied to "
+    "/repo by exact correspondence on generated histories at engine level (gaussian, fock) and backend-API level (all three)",
+    "abstraction of simulator content to one integer per mode (coherent displacement in units of 0.05; BSgate(pi/2,0) as the "
+    "two-mode gate; measurement = reset to vacuum); the per-mode fingerprint <x>/0.1 is decoded with tolerance 0.2 units",
+    "harness tools/props/c08.py (drivers, generators, signature classification, Python copy of the specification used as the "
+    "search oracle; the copy is compared with the Coq specification run_spec on every generated history)",
+    "the bosonic ENGINE path (BosonicBackend.run_prog / init_circuit pre-pass, re-initialisation per segment) is not modelled in "
+    "Coq: it is covered by the failing-input search only (three recorded findings live there)",
 ]
 ASSUMPTIONS = [
-    "histories use integer or RegRef mode references; negative integers are not generated at backend-API level",
-    "backend-API histories do not repeat a mode inside one del_mode / measure list",
+    "histories use integer or RegRef mode references; negative integers are not generated at backend-API level "
+    "(python negative indexing of the phase-space `active` lists is outside the quantifier: a Program never passes them)",
+    "backend-API histories do not repeat a mode inside one del_mode / measure list; a list whose leading entries are valid and "
+    "whose later entry is invalid is compared with the model (sequential semantics) but not judged by the property predicate",
     "measurement resets the measured mode to vacuum and leaves the (product) rest untouched",
+    "Fock backend: cutoff 4, at most 4-5 live modes, |data| <= 4 units so that truncation stays below the decoding tolerance",
 ]
-MANIFEST_TEXT = ("C08: machine-checked refinement of the Program register + Fock ModeMap/axis bookkeeping + Gaussian/bosonic "
-                 "active lists to a finite map index -> live data, for all histories; state content theorem full for Fock, "
-                 "conditional (live set is a prefix / all New(1)) for Gaussian / bosonic with _refuted witnesses for the rest")
+MANIFEST_TEXT = ("C08 (proof): for ALL histories of New/Del/gate/measure/segment operations the modelled Program register, Fock "
+                 "ModeMap+tensor axes and Gaussian `active` list are proved to be functions of one finite map index -> live data "
+                 "(refinement by induction over histories): index for life, register = get_modes, rejection of dead/unknown/"
+                 "repeated modes without effect, Fock axis bijection and Fock state content are FULL; Gaussian state content is "
+                 "_partial (live set a prefix / no Del; _refuted witness otherwise; the repaired slot selection is proved full); "
+                 "bosonic circuit theorems are _partial (every New creates one mode; _refuted for New(2)); the bosonic engine "
+                 "pre-pass is outside the model (search + known findings only). Model tied to /repo by exact correspondence.")
 
 DELTA = 0.05
 XUNIT = 0.1
@@ -308,6 +317,21 @@ def gen_history(rng, backend, level, max_ops=None, malformed=0.15, churn=None, b
     def deads():
         return [i for i, x in enumerate(s) if x is None]
 
+    if rng.random() < 0.12:
+        # drive the indices high (>= 9) while keeping few modes alive: delete all but one, create up to the cap
+        for _ in range(rng.choice([3, 4, 5])):
+            lv = lives()
+            if len(lv) > 1:
+                sel = lv[:-1] if rng.random() < 0.5 else list(reversed(lv[1:]))
+                hist.append(["Del", sel]); styles.append(rng.choice(["int", "ref"]))
+                s = spec_step(s, hist[-1])
+            m = max(1, min(3, cap - len(lives())))
+            hist.append(["New", m]); styles.append("int")
+            s = spec_step(s, hist[-1])
+            i = lives()[-1]
+            hist.append(["Disp", i, rng.choice([1, 2, -1])]); styles.append(rng.choice(["int", "ref"]))
+            s = spec_step(s, hist[-1])
+        max_ops += len(hist)
     while len(hist) < max_ops:
         lv = lives()
         bad = rng.random() < malformed
@@ -422,6 +446,38 @@ def max_live(n, hist):
 def nontrivial(case):
     segs = sum(1 for o in case["ops"] if o[0] == "Seg")
     return any(o[0] == "Del" for o in case["ops"]) or segs >= 2
+
+
+def note_stats(ctx, case):
+    st = ctx.extra.setdefault("input_features", {"index>=9": 0, "descending-list": 0, "segments>=2": 0, "segments>=3": 0,
+                                                  "rejected-op": 0, "fresh-program-segment": 0, "new>=2": 0, "delete-then-new": 0})
+    ops_ = case["ops"]
+    idx = [i for o in ops_ if o[0] in ("Del", "Meas") for i in o[1]] + [o[1] for o in ops_ if o[0] in ("Disp", "Swap")] + [o[2] for o in ops_ if o[0] == "Swap"]
+    if any(i >= 9 for i in idx):
+        st["index>=9"] += 1
+    if any(o[0] in ("Del", "Meas") and len(o[1]) > 1 and list(o[1]) != sorted(o[1]) for o in ops_) or any(o[0] == "Swap" and o[1] > o[2] for o in ops_):
+        st["descending-list"] += 1
+    segs = sum(1 for o in ops_ if o[0] == "Seg")
+    st["segments>=2"] += segs >= 2
+    st["segments>=3"] += segs >= 3
+    st["fresh-program-segment"] += any(o[0] == "Seg" and o[1] is not None for o in ops_)
+    st["new>=2"] += any(o[0] == "New" and o[1] >= 2 for o in ops_)
+    s_ = [0] * case["n"]
+    rej = False
+    deleted = False
+    dn = False
+    for o in ops_:
+        t = spec_step(s_, o)
+        if t is None:
+            rej = True
+        else:
+            s_ = t
+            if o[0] == "Del":
+                deleted = True
+            if o[0] == "New" and deleted:
+                dn = True
+    st["rejected-op"] += rej
+    st["delete-then-new"] += dn
 
 
 def bucket(case):
@@ -728,6 +784,7 @@ def correspondence(ctx):
         models, specs = r
         for c, impl, mo, sp in zip(sub, impls[si:si + shard], models, specs):
             ctx.case({"case": c}, nontrivial=nontrivial(c), bucket=bucket(c))
+            note_stats(ctx, c)
             ctx.traces += 1
             pyspec = spec_trace(c["n"], c["ops"])
             if pyspec != sp:
@@ -805,6 +862,7 @@ def search(ctx):
         impl = run_impl(c)
         spec = spec_trace(c["n"], c["ops"])
         ctx.case({"case": c}, nontrivial=nontrivial(c), bucket="search/" + bucket(c))
+        note_stats(ctx, c)
         fails = predicate_failures(c, impl, spec)
         if fails:
             report(ctx, c, fails, seen)
